@@ -241,6 +241,24 @@ def run_souden_wmwf(key):
             bad = tol.mismatch(ww[f], wantw, rt * 10, what=f'WMWF(mu={mu}) vs rank-one closed form')
             if bad:
                 return viol(bad)
+        # a stack of problems along an extra leading (source) axis: every slice is the single-problem result
+        if rc is not None:
+            PxxS = np.ascontiguousarray(np.stack([Pxx, 2.0 * Pxx, Pxx[::-1]]))
+            PnnS = np.ascontiguousarray(np.stack([Pnn, Pnn, Pnn[::-1]]))
+            try:
+                wsS = np.asarray(bf.get_mvdr_vector_souden(PxxS, PnnS, ref_channel=rc))
+                wwS = np.asarray(bf.get_wmwf_vector(PxxS, PnnS, reference_channel=rc, distortion_weight=mu))
+            except Exception as e:  # noqa
+                return viol(f'souden/wmwf raised {e!r} for a (3, F, D, D) stack')
+            if wsS.shape != (3, F, D) or wwS.shape != (3, F, D):
+                return viol(f'stacked shapes {wsS.shape}, {wwS.shape} != {(3, F, D)}')
+            ww2 = np.asarray(bf.get_wmwf_vector(2.0 * Pxx, Pnn, reference_channel=rc, distortion_weight=mu))
+            for got_, want_, nm in ((wsS[0], ws, 'Souden'), (wsS[1], ws, 'Souden (target x 2)'),
+                                    (wsS[2], ws[::-1], 'Souden (bins reversed)'), (wwS[0], ww, 'WMWF'),
+                                    (wwS[1], ww2, 'WMWF (target x 2)'), (wwS[2], ww[::-1], 'WMWF (bins reversed)')):
+                bad = tol.mismatch(got_, want_, rt * 10, what=f'{nm}: slice of a (3, F, D, D) stack vs the problem alone')
+                if bad:
+                    return viol(bad)
         # scale invariances (explicit reference only)
         if rc is not None:
             for c1, c2 in ((7.0, 1.0), (1.0, 1e3), (1e-3, 7.0)):
